@@ -73,6 +73,10 @@ PeerFailed == (\E c \in Cls : cstat[c] # "no" /\ ~chealthy[c]) \/ (\E r \in Rps 
 \* C10: "the bound replier's traffic is unaffected" by a replier that registers while it is bound
 ReplierRejected == \E r \in Rps : rstat[r] = "rejected" \/ rej[r] # <<>>
 Harm(props) == (IF PeerFailed THEN props \cup {"C08"} ELSE props) \cup (IF ReplierRejected THEN {"C10"} ELSE {})
+\* C10: "the next replier to register becomes the bound one and is served" -- requests that do not reach a
+\* healthy replier which bound after another one had left are that replier not being served
+Successor == (\E r \in Rps : rstat[r] = "gone") /\ BoundHealthy # {}
+HarmReq(props) == Harm(props) \cup (IF Successor THEN {"C10"} ELSE {})
 UnflushedReplies == \E c \in Cls : cstat[c] = "live" /\ chealthy[c] /\ cflushed[c] # Len(crecv[c])
 UnflushedRequests == \E r \in BoundHealthy : rflushed[r] # Len(rgot[r])
 SkippedNonDroppable(c, n) ==
@@ -167,6 +171,12 @@ Step(e) ==
                                             ELSE "request_not_intact")
             ELSE IF SkippedNonDroppable(e.item[1], e.item[2])
             THEN Flag({"C02"}, "earlier_request_lost_while_replier_bound")
+            \* Inv_AtMostOnce and Inv_RequestOrder for the element that is being added (TraceInv re-evaluates
+            \* them in full only while the run is short: they are quadratic in what has been handed over)
+            ELSE IF \E r2 \in Rps : \E j \in 1..Len(rgot[r2]) : rgot[r2][j] = <<e.item[1], e.item[2]>>
+            THEN Flag({"C02"}, "request_handed_over_twice")
+            ELSE IF \E j \in 1..Len(rgot[e.id]) : rgot[e.id][j][1] = e.item[1] /\ rgot[e.id][j][2] >= e.item[2]
+            THEN Flag({"C02"}, "request_order_inverted_at_replier")
             ELSE HandRequest(e.id, e.item[1], e.item[2]) /\ UNCHANGED mon
       [] e.ev = "si_close" /\ e.role = "sv" ->
             IF e.res # "ok" THEN Stutter
@@ -213,10 +223,10 @@ Step(e) ==
             ELSE IF UnobservedReplierEnd THEN Flag({"C09", "C10"}, "quiescent_replier_end_unobserved")
             ELSE IF UnyieldedReplies THEN Flag(Harm({"C09", "C02"}), "quiescent_unyielded_reply")
             ELSE IF ~RepliesComplete THEN Flag(Harm({"C02", "C09"}), "quiescent_reply_undelivered")
-            ELSE IF UnyieldedRequests THEN Flag(Harm({"C09", "C02"}), "quiescent_unyielded_request")
-            ELSE IF ~RequestsComplete THEN Flag(Harm({"C02", "C09"}), "quiescent_request_undelivered")
+            ELSE IF UnyieldedRequests THEN Flag(HarmReq({"C09", "C02"}), "quiescent_unyielded_request")
+            ELSE IF ~RequestsComplete THEN Flag(HarmReq({"C02", "C09"}), "quiescent_request_undelivered")
             ELSE IF UnflushedReplies THEN Flag(Harm({"C02", "C09"}), "quiescent_reply_unflushed")
-            ELSE IF UnflushedRequests THEN Flag(Harm({"C02", "C09"}), "quiescent_request_unflushed")
+            ELSE IF UnflushedRequests THEN Flag(HarmReq({"C02", "C09"}), "quiescent_request_unflushed")
             ELSE Stutter
       [] e.ev = "finished" ->
             IF ~closed THEN Flag({"C16"}, "finished_without_close")
@@ -239,6 +249,7 @@ TraceAccepted ==
     IF d - 1 = Len(Rec) THEN TRUE
     ELSE Print(<<"TRACE NOT CONSUMED", d, Len(Rec)>>, FALSE)
 
-TraceInv == skip \/ (Inv_OneReplier /\ Inv_AtMostOnce /\ Inv_RequestOrder /\ Inv_ReplyRouting
-                     /\ Inv_RejectedProtocol /\ Inv_NoLostRequest)
+LongRun == \E r \in Rps : Len(rgot[r]) > 48
+TraceInv == skip \/ (Inv_OneReplier /\ Inv_ReplyRouting /\ Inv_RejectedProtocol /\ Inv_NoLostRequest
+                     /\ (LongRun \/ (Inv_AtMostOnce /\ Inv_RequestOrder)))
 =============================================================================
